@@ -216,6 +216,15 @@ def c01(ctx):
         impl = get_impl(ctx, name)
         fails, mism, _ = run_dynamic(ctx, impl, corpus_hists("C01") + hists, oracle, DIGEST + ("PANIC", "FAULT"))
         report(ctx, impl, fails, mism, oracle, DIGEST + ("PANIC", "FAULT"), "PortableHash vs Spec.HH")
+    # "for every key and byte string" is a statement about the function, not about this host: the same real code
+    # on a big-endian 64-bit and a little-endian 32-bit target (Miri) must also equal the specification
+    from . import miri
+    step = 40 if ctx.tier == "quick" else 8
+    sub = [h for h in hists if h.meta["len"] <= 70 and (h.hid % step == 0 or h.meta["len"] in (7, 8, 9, 31, 32, 33))][:80 if ctx.tier == "quick" else 600]
+    for target in ("s390x-unknown-linux-gnu", "i686-unknown-linux-gnu"):
+        itr, problems = miri.std_run(target, sub)
+        miri.compare(ctx, target, miri.STD_TARGETS[target], sub, itr, problems, oracle, DIGEST + ("PANIC", "FAULT"),
+                     "PortableHash vs Spec.HH")
     proof_verdict(ctx, ok)
 
 
@@ -241,9 +250,14 @@ def c05(ctx):
                 w = G.WIDTHS[(f + c) % 3]
                 d = base[:f + c]
                 op = G.FEED_OPS_STD[(f + c + hid) % len(G.FEED_OPS_STD)]
-                lines = [ctor(b, 0, key), ctor(b, 1, key),
-                         "append 0 %s" % hexs(d[:f]), "%s 0 %s" % (op, hexs(d[f:])),
-                         "fin%s 0" % w, "hash%s 1 %s" % (w, hexs(d))]
+                if (f * 7 + c) % 5 == 0:
+                    # the one-shot helper itself as the last feeding step, on a hasher that already holds f bytes
+                    lines = [ctor(b, 0, key), ctor(b, 1, key), "append 0 %s" % hexs(d[:f]),
+                             "hash%s 0 %s" % (w, hexs(d[f:])), "hash%s 1 %s" % (w, hexs(d))]
+                else:
+                    lines = [ctor(b, 0, key), ctor(b, 1, key),
+                             "append 0 %s" % hexs(d[:f]), "%s 0 %s" % (op, hexs(d[f:])),
+                             "fin%s 0" % w, "hash%s 1 %s" % (w, hexs(d))]
                 hists.append(History(hid, lines, {"fill": f, "chunk": c, "backend": b, "nontrivial": f + c > 0}))
                 hid += 1
     nrand = 600 if ctx.tier == "quick" else 40000
@@ -254,7 +268,11 @@ def c05(ctx):
         d = G.rand_data(rng, n)
         chunks = G.partition(rng, d, maxchunks=2 + rng.below(8))
         w = rng.choice(G.WIDTHS)
-        lines = [ctor(b, 0, key), ctor(b, 1, key)] + G.feed_lines(rng, 0, chunks) + ["fin%s 0" % w, "hash%s 1 %s" % (w, hexs(d))]
+        if i % 4 == 0 and chunks:
+            lines = [ctor(b, 0, key), ctor(b, 1, key)] + G.feed_lines(rng, 0, chunks[:-1]) + \
+                    ["hash%s 0 %s" % (w, hexs(chunks[-1])), "hash%s 1 %s" % (w, hexs(d))]
+        else:
+            lines = [ctor(b, 0, key), ctor(b, 1, key)] + G.feed_lines(rng, 0, chunks) + ["fin%s 0" % w, "hash%s 1 %s" % (w, hexs(d))]
         hists.append(History(hid, lines, {"backend": b, "chunks": len(chunks), "nontrivial": n > 0}))
         ctx.count("chunks=%d" % min(len(chunks), 9))
         hid += 1
@@ -417,6 +435,15 @@ def c06(ctx):
                     hists.append(History(hid, lines, {"cut": cut, "pair": a + b, "nontrivial": n > 0}))
                     ctx.count("cut%%32=%d" % (cut % 32))
                     hid += 1
+        for key in G.SPECIAL_KEYS:          # keys that make the whole initial v0 / v1 vector 0, all-ones, ... : cuts before and after the first packet
+            for cut in (0, 1, 5, 16, 31, 32, 33, 64):
+                a, b = rng.choice(X86_BACKENDS), rng.choice(X86_BACKENDS)
+                d = rng.bytes(70, 1)
+                w = G.WIDTHS[(cut + hid) % 3]
+                lines = [ctor(a, 0, key), "append 0 %s" % hexs(d[:cut]), "%s 1 %s 0" % (restore_op(b), b), "append 1 %s" % hexs(d[cut:]),
+                         "fin%s 1" % w, "new 9 P %s" % G.keystr(key), "hash%s 9 %s" % (w, hexs(d))]
+                hists.append(History(hid, lines, {"cut": cut, "pair": a + b, "special_key": True}))
+                hid += 1
         for i in range(300 if ctx.tier == "quick" else 20000):
             key = G.rand_key(rng)
             nh = 1 + rng.below(4)
@@ -503,6 +530,10 @@ def random_history(rng, ops, nregs=3, maxops=14, blobs=True):
     """a random well-formed history over the whole operation language (x86 backends)"""
     lines = []
     live = []
+    kind = {}
+
+    def typ(b):
+        return "D" if b == "B" else b
     for step in range(1 + rng.below(maxops)):
         if not live or rng.below(6) == 0:
             r = rng.below(nregs + 2)
@@ -517,11 +548,12 @@ def random_history(rng, ops, nregs=3, maxops=14, blobs=True):
                 lines.append("%s %d %s %d" % (restore_op(b), r, b, rng.choice(live)))
             else:
                 lines.append(ctor(b, r, G.rand_key(rng)))
+            kind[r] = typ(b)
             if r not in live:
                 live.append(r)
             continue
         r = rng.choice(live)
-        m = rng.below(12)
+        m = rng.below(13)
         if m < 5:
             d = G.rand_data(rng, rng.choice(G.CHUNK_LENS + [rng.below(300)]))
             lines.append("%s %d %s" % (rng.choice(ops), r, hexs(d)))
@@ -534,6 +566,7 @@ def random_history(rng, ops, nregs=3, maxops=14, blobs=True):
         elif m == 8:
             r2 = rng.below(nregs + 2)
             lines.append("clone %d %d" % (r2, r))
+            kind[r2] = kind[r]
             if r2 not in live:
                 live.append(r2)
         elif m == 9 and "write" in ops:
@@ -541,6 +574,12 @@ def random_history(rng, ops, nregs=3, maxops=14, blobs=True):
         elif m == 10:
             lines.append("fin%s %d" % (rng.choice(G.WIDTHS), r))
             live.remove(r)
+        elif m == 11:
+            same = [x for x in live if x != r and kind.get(x) == kind.get(r)]
+            if same:
+                lines.append("clonefrom %d %d" % (r, rng.choice(same)))     # reg[r].clone_from(&reg[other])
+            else:
+                lines.append("ckpt %d" % r)
         else:
             lines.append("hash%s %d %s" % (rng.choice(G.WIDTHS), r, hexs(G.rand_data(rng, rng.below(100)))))
             live.remove(r)
@@ -957,6 +996,13 @@ def c13(ctx):
                      "fin%s 0" % w, "fin%s 1" % w,
                      "new 2 P %s" % G.keystr(key), "hash%s 2 %s" % (w, hexs(a + x)), "new 3 P %s" % G.keystr(key), "hash%s 3 %s" % (w, hexs(a + y))]
             hists.append(History(hid, lines, {"clone": True}))
+            hid += 1
+            # Clone::clone_from onto a destination that already absorbed bytes (0..40 of them pending / absorbed)
+            dirty = G.rand_data(rng, rng.choice([0, 1, 11, 16, 31, 32, 33, 40]))
+            lines = [ctor(b, 0, key), "append 0 %s" % hexs(a), ctor(b, 1, G.rand_key(rng)), "append 1 %s" % hexs(dirty), "finish 1" if b != "N" else "ckpt 1",
+                     "clonefrom 1 0", "append 0 %s" % hexs(x), "append 1 %s" % hexs(y), "fin%s 0" % w, "fin%s 1" % w,
+                     "new 2 P %s" % G.keystr(key), "hash%s 2 %s" % (w, hexs(a + x)), "new 3 P %s" % G.keystr(key), "hash%s 3 %s" % (w, hexs(a + y))]
+            hists.append(History(hid, lines, {"clone": True, "clone_from": len(dirty)}))
             hid += 1
         return hists
 
